@@ -515,6 +515,9 @@ pub struct Engine {
     pub db: Database,
     pub cfg: Config,
     pub tmp: Option<tempfile::TempDir>,
+    /// query result cache driven the way the sqllogictest adapter drives it (C25): signature from the SQL text, lookup, on a
+    /// miss execute and insert with the tables extract_tables_from_select reports, invalidate_table(target) on writes
+    pub cache: vibesql_executor::cache::QueryResultCache,
 }
 
 pub fn fresh_db(cfg: &Config) -> (Database, Option<tempfile::TempDir>) {
@@ -539,12 +542,39 @@ pub fn fresh_db(cfg: &Config) -> (Database, Option<tempfile::TempDir>) {
 impl Engine {
     pub fn new(cfg: Config) -> Self {
         let (db, tmp) = fresh_db(&cfg);
-        Engine { db, cfg, tmp }
+        Engine { db, cfg, tmp, cache: vibesql_executor::cache::QueryResultCache::new(1000) }
     }
     pub fn reset(&mut self) {
         let (db, tmp) = fresh_db(&self.cfg);
         self.db = db;
         self.tmp = tmp;
+        self.cache = vibesql_executor::cache::QueryResultCache::new(1000);
+    }
+
+    /// SELECT through the result cache.
+    fn cached_query(&mut self, sql: &str) -> (Outcome, bool) {
+        use vibesql_executor::cache::QuerySignature;
+        let r = catch_unwind(AssertUnwindSafe(|| {
+            let sig = QuerySignature::from_sql(sql);
+            if let Some((rows, _schema)) = self.cache.get(&sig) {
+                return (Outcome { out: "ok", cnt: rows.len() as i64, rows: Some(rows), msg: String::new() }, true);
+            }
+            match vibesql_parser::Parser::parse_sql(sql) {
+                Ok(Statement::Select(sel)) => match vibesql_executor::SelectExecutor::new(&self.db).execute(&sel) {
+                    Ok(rows) => {
+                        let tables = vibesql_executor::cache::extract_tables_from_select(&sel);
+                        let ts = vibesql_catalog::TableSchema::new("result".to_string(), vec![]);
+                        let schema = vibesql_executor::schema::CombinedSchema::from_table("result".to_string(), ts);
+                        self.cache.insert(sig, rows.clone(), schema, tables);
+                        (Outcome { out: "ok", cnt: rows.len() as i64, rows: Some(rows), msg: String::new() }, false)
+                    }
+                    Err(e) => (Outcome { out: classify(&e), cnt: 0, rows: None, msg: format!("{}", e) }, false),
+                },
+                Ok(_) => (Outcome { out: "err", cnt: 0, rows: None, msg: "not a SELECT".into() }, false),
+                Err(e) => (Outcome { out: "parse", cnt: 0, rows: None, msg: format!("{}", e) }, false),
+            }
+        }));
+        r.unwrap_or((Outcome { out: "panic", cnt: 0, rows: None, msg: "panic".into() }, false))
     }
 
     /// C20: save the current database, damage the file as the fault says, load it in a child process
@@ -667,6 +697,13 @@ impl Engine {
                 self.db.set_role(if r.is_empty() { None } else { Some(r.to_string()) });
                 Outcome::ok(0)
             }
+            "cq" => {
+                let (o, hit) = self.cached_query(&sql);
+                if hit {
+                    sql = format!("{} -- cache hit", sql);
+                }
+                o
+            }
             "saveload" => {
                 sql = format!("-- save as {} and load back", a["fmt"].as_str().unwrap_or(""));
                 let dir = tempfile::tempdir().expect("tempdir");
@@ -716,6 +753,12 @@ impl Engine {
             }
             _ => exec_sql(&mut self.db, &sql),
         };
+        // the cache protocol: a statement that writes a table invalidates the entries that depend on it
+        if o.out == "ok" {
+            if let ("ins" | "inssel" | "upd" | "del" | "trunc" | "dt", Some(t)) = (kind, a["t"].as_str()) {
+                self.cache.invalidate_table(t);
+            }
+        }
         let st = if self.cfg.no_state {
             json!({})
         } else {
